@@ -195,7 +195,30 @@ def known_finding_cases(ctx):
         follow_up(ctx, "symbol", strat.content(run.best), run.best, fn, dict(known="symbol a]b;c"))
 
 
+def collision_case(ctx, do_model=True):
+    """when the real de-duplication key collides for two different contents, a never-tested deletion is skipped"""
+    col = strat.find_key_collision()
+    ctx.bump("dedupe-key-collision-found" if col else "dedupe-key-collision-none")
+    if not col:
+        return
+    a, b = col
+    for parts in ([a, b], [b, a]):
+        f = (b"", parts, [True, True], b"")
+        keep = parts[1]
+        fn = lambda c, keep=keep, whole=parts[0] + parts[1]: c in (whole, keep)
+        for cfg in CFGS:
+            tc = strat.testcase_from_fields("line", f)
+            table = {}
+            run = strat.run_real("minimize", cfg, tc, lambda k, c: table.setdefault(c, fn(c)), max_tests=100)
+            case = dict(cfg=cfg, splitter="line", parts=enc_list(parts), note="two contents with the same de-duplication key",
+                        verdicts="".join("1" if v else "0" for v in run.verdicts))
+            if do_model:
+                ctx.expect("minimize", strat.model_line("minimize", cfg, f, run.verdicts), run.encode(), case)
+            check_minimal(ctx, f, run, table, case, total_fn=fn)
+
+
 def search(ctx):
+    collision_case(ctx, do_model=False)
     trees(ctx, 4, 3000, do_model=False)
     family_runs(ctx, 6, do_model=False)
 
@@ -203,6 +226,7 @@ def search(ctx):
 def run(ctx) -> int:
     proof = common.proof_stage(ctx.pid)
     known_finding_cases(ctx)
+    collision_case(ctx)
     nmax = 7 if ctx.thorough else 6
     if trees(ctx, nmax, 400000 if ctx.thorough else 60000):
         ctx.exhaustive.append(f"every deterministic test (verdict tree) for n <= {nmax} atoms x 3 input shapes x {len(CFGS)} option settings")
